@@ -53,7 +53,7 @@ def in_force(case, j, kind, cfgw, W):
 def cases_functions(tier):
     quick = tier == "quick"
     # (R, J, K, B)
-    shapes = [(2, 1, 0, 1), (2, 2, 1, 1), (3, 1, 0, 1), (2, 1, 1, 2)] if quick else [(1, 1, 0, 1), (2, 1, 0, 1), (2, 2, 1, 1), (3, 1, 0, 1), (3, 2, 1, 1), (2, 1, 1, 2), (2, 2, 0, 2)]
+    shapes = [(2, 1, 0, 1), (2, 2, 1, 1), (3, 1, 0, 1), (2, 1, 1, 2)] if quick else [(1, 1, 0, 1), (2, 1, 0, 1), (2, 2, 1, 1), (3, 1, 0, 1), (3, 2, 1, 1), (2, 1, 1, 2), (2, 2, 0, 2), (4, 1, 0, 1), (4, 2, 1, 1), (3, 2, 1, 2), (2, 1, 0, 3)]
     for (R, J, K, B) in shapes:
         masks = [list(m) for m in itertools.product((False, True), repeat=R)]
         if quick and R == 3:
